@@ -103,6 +103,8 @@ PROPS["C13"] = {
               U("TestVerif_C13_RunLoop", PROC, R(300, shrinktime="20s"), R(12000, shards=16, timeout=1500, shrinktime="30s"), wallclock_fps=["C13/run-loop-stalled"]),
               # the loop's own cleanup ticker firing while observations stream in, under the race detector: the aggregation
               # state is touched by the loop's goroutine only
+              # the settlement pass with a notifier configured: its notifications leave from goroutines nobody can recover
+              U("TestVerif_C13_Notifier", PROC, R(600), R(20000, shards=16, timeout=1500), crash_is_violation=True),
               U("TestVerif_C13_RunLoopTicks", PROC, R(40, shrinktime="10s"), R(1500, shards=16, timeout=1500, shrinktime="20s"), race=True, wallclock_fps=["C13/run-loop-stalled"],
                 replay_tries=2, replay_repeat=3)],
 }
